@@ -28,7 +28,7 @@ structure Entry where
 inductive DirState where
   | missing                         -- lstat of the directory: ErrNotExist
   | unscannable                     -- lstat fails otherwise (ENOTDIR: a path component is a file; EACCES)
-  | unreadable                      -- a directory whose listing fails: yields nothing, silently
+  | unreadable                      -- a directory whose listing fails: reported as an error entry for the directory
   | notDir (content : Option Spec)  -- the configured path is a regular file
   | dir (entries : List Entry)
   deriving Repr
@@ -56,7 +56,7 @@ error other than SkipDir/ErrStopScan, which aborts the whole scan.
 def scanDir (skipUnscannable : Bool) (prio : Nat) (dir : Str) : DirState → Option (List ScanItem)
   | .missing => some []
   | .unscannable => if skipUnscannable then some [] else none
-  | .unreadable => some []
+  | .unreadable => some [⟨dir, prio, none⟩]
   | .notDir content => some (if isSpecName dir then [⟨dir, prio, loadResult content⟩] else [])
   | .dir entries =>
     let rec go : List Entry → Option (List ScanItem)
